@@ -105,7 +105,7 @@ func ctxFails(p *chaincfg.Params, times []int64, bits []uint32, hb uint32, ht in
 	if want, err := safeNext(tip, time.Unix(ht, 0), c); err == nil && want != hb {
 		n++
 	}
-	if !(ht > blockchain.CalcPastMedianTime(tip).Unix()) {
+	if !(ht > safeMTP(tip)) {
 		n++
 	}
 	if p.EnforceBIP94 && !blockchain.VerifAssertNoTimeWarp(int32(len(times)), c.BlocksPerRetarget(),
@@ -296,6 +296,11 @@ func execHard(f []string) string {
 			wg.Add(1)
 			go func(w int) {
 				defer wg.Done()
+				defer func() {
+					if r := recover(); r != nil {
+						bad[w] = true
+					}
+				}()
 				for rep := 0; rep < 4; rep++ {
 					for k := range cs {
 						i := (k + w*len(cs)/8) % len(cs)
@@ -324,6 +329,8 @@ func execHard(f []string) string {
 		return realAdjustedTime(f[2:])
 	case "reuse":
 		return execReuse(f)
+	case "genpanic":
+		return "generator-panicked" // marker emitted by Generate: the Lean side answers bad-op, so the run fails with a line
 	case "ptree":
 		return realProcessTree(parseParams(f[2:11]), f[12:])
 	case "hfork":
@@ -379,6 +386,16 @@ func safeNext(last blockchain.HeaderCtx, t time.Time, c blockchain.ChainCtx) (bi
 	return blockchain.VerifCalcNextRequiredDifficulty(last, t, c)
 }
 
+// safeMTP: CalcPastMedianTime of the real code; a panic becomes an impossible value
+func safeMTP(node blockchain.HeaderCtx) (v int64) {
+	defer func() {
+		if r := recover(); r != nil {
+			v = -1 << 62
+		}
+	}()
+	return blockchain.CalcPastMedianTime(node).Unix()
+}
+
 func safeCtx(header *wire.BlockHeader, node blockchain.HeaderCtx, c blockchain.ChainCtx) (err error) {
 	defer func() {
 		if r := recover(); r != nil {
@@ -406,7 +423,7 @@ func triple(p *chaincfg.Params, node blockchain.HeaderCtx, c blockchain.ChainCtx
 	if err == errPanic {
 		v = "panic"
 	}
-	return req + "/" + v + "/" + strconv.FormatInt(blockchain.CalcPastMedianTime(node).Unix(), 10)
+	return req + "/" + v + "/" + strconv.FormatInt(safeMTP(node), 10)
 }
 
 // execReuse: inputs are values too. ONE Params, ONE BlockChain with ONE chain of real blockNodes and ONE
@@ -461,6 +478,11 @@ func execReuse(f []string) string {
 		wg.Add(1)
 		go func(w int) {
 			defer wg.Done()
+			defer func() {
+				if r := recover(); r != nil {
+					bad[w] = true
+				}
+			}()
 			for rep := 0; rep < 2; rep++ {
 				for j := range items {
 					k := (j + w) % len(items)
@@ -817,7 +839,7 @@ func generateHard(g *core.Gen) {
 		red := int64(p.MinDiffReductionTime / time.Second)
 		per := int64(p.TargetTimePerBlock / time.Second)
 		newTime := lastTs + r.Pick(red-1, red, red+1, 0, 1, per, -5, -599, -600, -601, -602)
-		mtp := blockchain.CalcPastMedianTime(hdrChain(times, bits)).Unix()
+		mtp := safeMTP(hdrChain(times, bits))
 		if r.Chance(1, 3) { // MTP boundary triple
 			newTime = mtp + r.Pick(-1, 0, 1)
 		}
@@ -1209,7 +1231,7 @@ func generateHard(g *core.Gen) {
 			tip := hdrChain(times[:m], bits[:m])
 			t := times[m-1] + r.Pick(red-1, red, red+1, 0, 1, -5, -601)
 			if r.Chance(1, 4) {
-				t = blockchain.CalcPastMedianTime(tip).Unix() + r.Pick(0, 1)
+				t = safeMTP(tip) + r.Pick(0, 1)
 			}
 			want, err := safeNext(tip, time.Unix(t, 0), cctx{p})
 			if err != nil || r.Chance(1, 6) {
@@ -1306,7 +1328,7 @@ func generateHard(g *core.Gen) {
 		for j := 0; j < n; j++ {
 			last := times[len(times)-1]
 			tip := hdrChain(times, bits)
-			mtp := blockchain.CalcPastMedianTime(tip).Unix()
+			mtp := safeMTP(tip)
 			t := last + r.Pick(per, per, per/2, 2*per, 1, 0, red+1, red, per/4, 4*per)
 			if p.EnforceBIP94 && (len(times)+1)%bpr == 0 && r.Bool() {
 				t = last + 1000 // lifts the next (first-of-period) block's window above the MTP
@@ -1386,7 +1408,7 @@ func generateHard(g *core.Gen) {
 			par := known[pi]
 			last := par.times[len(par.times)-1]
 			tip := hdrChain(par.times, par.bits)
-			mtp := blockchain.CalcPastMedianTime(tip).Unix()
+			mtp := safeMTP(tip)
 			t := last + r.Pick(per, per/2, 2*per, 1, red+1, red, per/4, 4*per, 3*per+int64(len(known)))
 			if p.EnforceBIP94 && len(par.times)%bpr == 0 && r.Chance(1, 3) {
 				t = last + r.Pick(-599, -600, -601)
